@@ -31,7 +31,7 @@ REAL = ['py4hw.simulation.Simulator.clk/_clk_cycle/stop', 'py4hw.base.Wire.prepa
 STUB = ['stimulus (wire.put between clk calls)', 'cancelling listener']
 ASSUMPTIONS = ['inputs change only between clk calls, identically in both systems',
                'reference models in dsim/catalog.py']
-PROBES = ['parameter_reassigned_after_read', 'bidir_sequential', 'simulator_fetched_in_clock', 'fsm_block', 'swap_pair', 'ring', 'memory', 'split_clk', 'stop_cancel', 'multi_driver']
+PROBES = ['edge_aborted_by_exception', 'clk_from_inside_listener', 'parameter_reassigned_after_read', 'bidir_sequential', 'simulator_fetched_in_clock', 'fsm_block', 'swap_pair', 'ring', 'memory', 'split_clk', 'stop_cancel', 'multi_driver']
 
 
 def gen(rs, tier, index):
@@ -41,10 +41,31 @@ def gen(rs, tier, index):
     # FSM blocks: behavioural library blocks (no catalogue model: the twin is their oracle) and the message sequencer
     seqk += [k for k in kinds_with(tag='transpiled')] + [KINDS['MsgSequencer']]
     seqk += kinds_with(tag='simpeek')      # a monitor block that fetches the simulator from inside clock()
+    seqk += kinds_with(tag='moore_propagate')   # state updated in clock(), output shown by propagate()
     seqk += kinds_with(tag='param')        # a parameterised block that forwards its parameter by reference (one or two levels)
     shape = rng.random()
+    abort = False
     if shape < 0.2:
         d = swap_ring_design(rng)
+    elif shape < 0.27:
+        # abort: blocks whose state lives in wires only, plus a checker block whose clock() raises on demand: the caller
+        # catches the exception (the edge was not completed and does not count), changes the inputs and goes on
+        # (only registers without enable: they recompute everything from their inputs at the next edge. Blocks that keep
+        # state in attributes - enabled registers, sequences, memories - are left half updated by an aborted edge on the
+        # unchanged tree as well; nothing can be demanded of them)
+        d = netlist.gen_design(rng, rng.choice([4, 6, 10]), comb, hier_depth=rng.choice([0, 1]), feedback=rng.choice([0.2, 0.4]),
+                               seq_kinds=[KINDS['Reg']], seq_frac=0.7, maxw=40)
+        for nd in d['nodes']:
+            if nd['kind'] == 'Reg' and nd['p']['en']:
+                nd['p'] = dict(nd['p'], en=False)
+                del nd['ins'][1]
+        nm = 'i%d' % len(d['inputs'])
+        d['inputs'].append({'name': nm, 'w': 1, 'role': 'throw'})
+        nid = max(n['id'] for n in d['nodes']) + 1
+        d['nodes'].append({'id': nid, 'kind': 'Thrower', 'p': {}, 'ins': [nm], 'ow': [1], 'grp': []})
+        d['outputs'].append('n%d.0' % nid)
+        d['order'].append(nid)
+        abort = True
     else:
         n = rng.choice([4, 6, 10, 16]) if tier == 'quick' else rng.choice([6, 12, 24, 40])
         d = netlist.gen_design(rng, n, comb, hier_depth=rng.choice([0, 1, 2]), feedback=rng.choice([0.2, 0.4, 0.6]),
@@ -58,7 +79,7 @@ def gen(rs, tier, index):
     if gd:
         d['group_driver'] = gd
     d['bidir'] = []
-    for _ in range(rng.choice([0, 0, 1, 2])):
+    for _ in range(rng.choice([0, 0, 1, 2]) if not abort else 0):
         w = rng.choice([1, 8, 16])
         d['bidir'].append({'w': w, 'values': [rng.getrandbits(w) for _ in range(rng.randint(2, 5))]})
     order = list(d['order'])
@@ -70,6 +91,8 @@ def gen(rs, tier, index):
     prev = None
     for si in range(sr.randint(3, 12)):
         vec = netlist.gen_vector(sr, d['inputs'], prev)
+        if abort:
+            vec[-1] = 0
         prev = vec
         n = sr.choice([1, 1, 2, 3, 5, 8, 20])
         # partition of n into clk() calls
@@ -83,6 +106,11 @@ def gen(rs, tier, index):
         faults = [f for f in ('resort', 'sim_restart') if fr.random() < 0.12]
         steps.append({'vec': vec, 'n': n, 'parts': parts, 'stop_at': stop_at, 'faults': faults,
                       'pseed': rs.sub('perm%d' % si)})
+        if abort and fr.random() < 0.4:
+            steps[-1]['throw'] = netlist.gen_vector(sr, d['inputs'], vec)[:-1] + [1]     # the inputs of the edge that is aborted
+        if len(parts) == 1 and stop_at is None and fr.random() < 0.08:
+            # re-entry: a listener advances the simulation by k more cycles from inside its callback, once
+            steps[-1]['nest'] = [fr.randint(1, n), fr.choice([1, 1, 2])]
         pk = [nd for nd in d['nodes'] if nd['kind'] == 'ParamScaler']
         if pk and fr.random() < 0.3:
             # the parameter is re-assigned at the top of the block between clk() calls (after it has been read)
@@ -117,6 +145,10 @@ class Stopper:
         self.count += 1
         if self.at is not None and self.count == self.at:
             self.sim.stop()
+        if getattr(self, 'nest_at', None) is not None and self.count == self.nest_at:
+            k, self.nest_at = self.nest_k, None
+            with quiet():
+                self.sim.clk(k)         # the listener advances the run itself; its own callbacks during that call only count
 
 
 def leaf_state(obj):
@@ -197,6 +229,16 @@ def run(scn, log, st):
                 st.fault('param_update')
                 st.probe('parameter_reassigned_after_read')
         sh = seams.EdgeShuffler(sim, rng, st)
+        after_abort = False
+        if step.get('throw') and any(n_['kind'] == 'Thrower' for n_ in d['nodes']):
+            b.set_inputs(step['throw'])
+            try:
+                with quiet():
+                    sim.clk(1)
+            except RuntimeError:
+                st.fault('edge_aborted_by_exception')
+                st.probe('edge_aborted_by_exception')
+                after_abort = True      # some blocks were clocked, nothing was settled: the edge does not count
         b.set_inputs(step['vec'])
         twin.set_inputs(step['vec'])
         ref.set_inputs(step['vec'])
@@ -227,15 +269,26 @@ def run(scn, log, st):
             else:
                 stopper.at = None
                 expect = k
+            extra = 0
+            if step.get('nest') and pend_stop is None and len(step['parts']) == 1:
+                stopper.nest_at, stopper.nest_k = stopper.count + step['nest'][0], step['nest'][1]
+                extra = step['nest'][1]
+                expect += extra
+                st.fault('nested_clk')
+                st.probe('clk_from_inside_listener')
             with quiet() as buf:
                 sim.clk(k)
-            if 'already prepared' in buf.getvalue():
+            if 'already prepared' in buf.getvalue() and not after_abort:
                 raise Violation('double-prepare', 'double-prepare', si, buf.getvalue()[:300])
+            after_abort = False
             ran = sim.total_clks - before
             if ran != expect:
                 raise Violation('cycle-count', 'total_clks', si, 'clk(%d) with stop after %d advanced total_clks by %d' % (k, expect, ran))
             done += ran
-            if ran < k:
+            if extra:
+                n += extra
+                done -= extra
+            elif ran < k:
                 parts.insert(0, k - ran)     # resume what the cancellation cut off
             seams.check_prepared_empty('after clk call in step %d' % si, si)
         for _ in range(n):
